@@ -16,7 +16,7 @@ EVENTS_PER_CASE = 250
 
 
 def cases(tier, seed):
-    n = 960 if tier == 'quick' else 200000
+    n = 3000 if tier == 'quick' else 200000
     return [('fr' if i % 2 else 'fq', EVENTS_PER_CASE) for i in range(n)]
 
 
